@@ -8,6 +8,7 @@
 -/
 import Y0.Lemmas.IdVocab
 import Y0.Lemmas.IdGraph
+import Y0.Lemmas.IdcStep
 
 namespace Y0
 open IdDsl IdAux
@@ -78,6 +79,36 @@ theorem identifyOutcomes_vocab (topo : MG Name → Except Err (List Name)) (htop
     exact id_vocab topo htopo G hG X Y _ he
   · cases h
   · cases h
+
+/-- invariant of the IDC loop: whatever conditions are exchanged, the result is `e / Σ_Y e` for an ID estimand `e` -/
+theorem idcAlg_vocab (sep : SepTest) (topo : MG Name → Except Err (List Name)) (htopo : TopoNodes topo)
+    (G : MG Name) (hG : G.WF) (est : Expr) (hest : ObsOnly G.nodes est) (Y : List Name)
+    (hY : ∀ y ∈ Y, y ∈ G.nodes) :
+    ∀ (fuel : Nat) (X Z : List Name) (e : Expr), idcAlg sep topo G est fuel X Y Z = .ok e → ObsOnly G.nodes e := by
+  intro fuel
+  induction fuel with
+  | zero =>
+    intro X Z e h
+    rcases idcAlg_ok h with ⟨c, f', _, hf, _⟩ | ⟨_, e0, he0, hn⟩
+    · cases hf
+    · have h0 := idAlg_vocab topo htopo G.nodes _ e0 he0 hG (fun _ hv => hv) hest
+      exact obsOnly_div _ _ _ hn h0 (obsOnly_sumSafe h0 hY)
+  | succ n ih =>
+    intro X Z e h
+    rcases idcAlg_ok h with ⟨c, f', _, hf, hrec⟩ | ⟨_, e0, he0, hn⟩
+    · cases hf
+      exact ih _ _ e hrec
+    · have h0 := idAlg_vocab topo htopo G.nodes _ e0 he0 hG (fun _ hv => hv) hest
+      exact obsOnly_div _ _ _ hn h0 (obsOnly_sumSafe h0 hY)
+
+/-- **C06 (IDC).** Every estimand returned by `idc` on a well-formed graph (outcomes inside the graph) mentions only
+plain observational terms over nodes of that graph. -/
+theorem idc_vocab (sep : SepTest) (topo : MG Name → Except Err (List Name)) (htopo : TopoNodes topo) (G : MG Name)
+    (hG : G.WF) (X Y Z : List Name) (hY : ∀ y ∈ Y, y ∈ G.nodes) (e : Expr) (h : idc sep topo G X Y Z = .ok e) :
+    ObsOnly G.nodes e := by
+  unfold idc at h
+  obtain ⟨est, hest, h⟩ := bind_ok h
+  exact idcAlg_vocab sep topo htopo G hG est (obsOnly_pJoint hest (fun _ hx => hx)) Y hY _ _ _ e h
 
 /-! ### non-vacuity -/
 
